@@ -15,7 +15,7 @@
 (***************************************************************************)
 EXTENDS Integers, Sequences, FiniteSets, TLC, BigAmt
 
-CONSTANTS D, W_, P, PartSize, FaultMaxAge, FaultCutoff, MinLife, MaxLife, MinPower, MinMiners
+CONSTANTS D, W_, P, PartSize, FaultMaxAge, FaultCutoff, MinLife, MaxLife, MinPower, MinMiners, AddrSectorsMax, AddrPartsMax
 
 SeqSet(s) == {s[i] : i \in 1..Len(s)}
 Idx(s) == 1..Len(s)
